@@ -174,7 +174,7 @@ func oneTree(o *opts, r *rng, s *summary, i int, sc treeScenario, distinct map[s
 	// two names for one inode (hard links) inside a tracked directory: two entries with equal bytes as
 	// far as the property goes. (The model has no inodes - after a link commit the second name stays
 	// a regular file on the object's inode - so the commit is judged by the statements only: obs 9.)
-	hardlinked := sc.kind == "dir" && !sc.invalid && !sc.foreign && r.chance(1, 4)
+	hardlinked := sc.kind == "dir" && !sc.invalid && !sc.foreign && (r.chance(1, 4) || i%3 == 0)
 	if hardlinked {
 		b := append([]byte("one inode, two names "), r.bytes(12)...)
 		art.set("hl_first.bin", nFile(b))
